@@ -257,8 +257,10 @@ def oracle(stream, header, ops, obs):
         if name == "consistent":
             f["flags"] = [l for l in g if "mismatch" in l]
             cls = check_view(f)
-            if cls == "view-edge-references-name-a-node-that-is-not-listed" and f["kind"] == 3:
-                cls = "matrixgraph-edge-to-an-absent-node"      # known finding, specific to MatrixGraph
+            if cls == "view-edge-references-name-a-node-that-is-not-listed" and f["kind"] == 13:
+                # known finding: the harness called update_edge(live, removed id) on purpose (kind 13); a dangling edge that
+                # appears by itself on a MatrixGraph (kind 3) keeps the general class and is reported
+                cls = "matrixgraph-edge-to-an-absent-node"
             if cls:
                 return bad(k, cls)
             continue
